@@ -455,7 +455,9 @@ def run(ctx: Ctx):
     # small programs whose every gap is tried: self-documenting f-string fields behind non-ASCII text, multi-line holders whose first line is longer than the last
     extra = ["x = f'é {a = }'\n", "y = f'ü{b=!r:>10} ñ {c = } {d  =  }'\n", "z = f'''ö\n {e = } é {f=}'''\n", 'w = foo(a,  b ,\n    c)\n', 'v = [aaaa,   bbbb,\n]\n',
              "s = f'{ {1, 2} }' + f'é{ (x) = }'\n", "q = 1\nx = f'''{a + \\\n b = }'''\n", "y = f'{a is not b = }'\n", "z = f'{a not in b = } {c   is   not   d=}'\n",
-             "if x:\n    w = f'{(a,\n  b) = !r}'\n", "k = 0\nu = f'{a +\\\n  b = } {f(c,\n d) = :>{w}}'\n", 'def f():\n  if a:\n    x = 1  # c\ny = 2\n', '@d1\n@d2(a,  b)\ndef g(a,  b ,\n      c): pass\n']
+             "if x:\n    w = f'{(a,\n  b) = !r}'\n", "k = 0\nu = f'{a +\\\n  b = } {f(c,\n d) = :>{w}}'\n", 'def f():\n  if a:\n    x = 1  # c\ny = 2\n', '@d1\n@d2(a,  b)\ndef g(a,  b ,\n      c): pass\n',
+             # positional and keyword arguments interleaved in every way (the syntax order of a Call / ClassDef merges two lists): starred arguments behind the last keyword, keywords between them
+             'f(k=1, *a, *b, *c)\ng(x, k=1, *a, j=2, *b, *c, **d)\n', 'class K(A, m=1, *B, *C, *D): pass\nh(*a, k=1, *b, l=2, *c, *d, *e)\n', 'r = f(k=1,\n      *a,\n  *b,  *c)\n']
     run_guarded(ctx, stage_oracle, extra + progs)
     run_guarded(ctx, stage_edges, progs)
 
